@@ -7,13 +7,74 @@
 //! (b) implementation-level oracle sweep (`#` requests, see `c03_sweep.rs`).
 use crate::util::*;
 use linfa::composing::platt_scaling::platt_predict;
-use linfa::dataset::Pr;
+use linfa::dataset::{AsTargets, DatasetBase, Pr};
 use linfa::traits::{Fit, Predict, PredictInplace};
 use linfa::{Dataset, MultiClassModel, MultiTargetModel};
 use ndarray::{Array1, Array2, Axis};
 
 #[path = "c03_sweep.rs"]
 mod sweep;
+
+/// the five calling forms that allocate their own buffer (`&records`, `records`, `&dataset`, `dataset`,
+/// `predict_inplace` into `default_target`), by the name the driver knows them
+pub const FORMS: [&str; 5] = ["ref", "own", "dsref", "dsown", "inplace"];
+/// how a request reaches the model: one of `FORMS`, or `predict_inplace` into a caller-supplied buffer
+pub enum How<T> {
+    Form(usize),
+    Into(T),
+}
+
+fn rec_tag(back: &Array2<f64>, x: &Array2<f64>) -> &'static str {
+    if back.dim() == x.dim() && back.iter().zip(x.iter()).all(|(a, b)| a.to_bits() == b.to_bits() || (a.is_nan() && b.is_nan())) {
+        " rec=same"
+    } else {
+        " rec=changed"
+    }
+}
+
+/// run the REAL calling form (the blanket impls of `impl_dataset.rs`); returns the targets and, for the
+/// forms that hand the records back, whether they came back cell for cell
+pub fn run_how<M, T>(m: &M, x: &Array2<f64>, how: How<T>) -> (T, &'static str)
+where
+    M: PredictInplace<Array2<f64>, T>,
+    T: AsTargets,
+{
+    match how {
+        How::Form(0) => (<M as Predict<&Array2<f64>, T>>::predict(m, x), ""),
+        How::Form(1) => {
+            let d = <M as Predict<Array2<f64>, DatasetBase<Array2<f64>, T>>>::predict(m, x.clone());
+            let t = rec_tag(&d.records, x);
+            (d.targets, t)
+        }
+        How::Form(2) => {
+            let ds: DatasetBase<Array2<f64>, Array1<()>> = DatasetBase::from(x.clone());
+            (<M as Predict<&DatasetBase<Array2<f64>, Array1<()>>, T>>::predict(m, &ds), "")
+        }
+        How::Form(3) => {
+            let ds: DatasetBase<Array2<f64>, Array1<()>> = DatasetBase::from(x.clone());
+            let d = <M as Predict<DatasetBase<Array2<f64>, Array1<()>>, DatasetBase<Array2<f64>, T>>>::predict(m, ds);
+            let t = rec_tag(&d.records, x);
+            (d.targets, t)
+        }
+        How::Form(_) => {
+            let mut t = m.default_target(x);
+            m.predict_inplace(x, &mut t);
+            (t, "")
+        }
+        How::Into(mut y) => {
+            m.predict_inplace(x, &mut y);
+            (y, "")
+        }
+    }
+}
+
+/// request suffix naming the form
+fn form_key<T>(how: &How<T>) -> String {
+    match how {
+        How::Form(f) => format!(" form={}", FORMS[*f]),
+        How::Into(_) => " form=into".to_string(),
+    }
+}
 
 /// rows carry their tag in column 0
 fn tag_rows(tags: &[usize]) -> Array2<f64> {
@@ -48,32 +109,39 @@ impl<T: Clone> PredictInplace<Array2<f64>, Array1<T>> for Scripted<T> {
 }
 
 /// `pre`: a caller-supplied target buffer (rows of a 2-d array); `None` = the `Predict` form
-fn op_mt(em: &mut Em, tags: Vec<usize>, tab: Vec<Vec<i64>>, adj: Vec<usize>, pre: Option<Vec<Vec<i64>>>) {
+fn op_mt(em: &mut Em, tags: Vec<usize>, tab: Vec<Vec<i64>>, adj: Vec<usize>, pre: Option<Vec<Vec<i64>>>, form: usize) {
     let mut op = format!("mt tags={} tab={} adj={}", list(tags.iter(), |x| x.to_string()), list2(tab.iter().map(|r| r.iter()), |x| x.to_string()), list(adj.iter(), |x| x.to_string()));
     let pre_ok = match &pre {
         None => true,
         Some(p) => p.len() == tags.len() && p.iter().all(|r| r.len() == tab.len()),
     };
-    if let Some(p) = &pre {
-        op.push_str(&format!(" pre={}", list2(p.iter().map(|r| r.iter()), |x| x.to_string())));
+    match &pre {
+        Some(p) => op.push_str(&format!(" form=into pre={}", list2(p.iter().map(|r| r.iter()), |x| x.to_string()))),
+        None => op.push_str(&format!(" form={}", FORMS[form])),
     }
     let valid = adj.iter().all(|a| *a == 0) && pre_ok;
+    if !valid {
+        // ill-behaved members / a buffer of the wrong shape: outside the property's guard — run (no crash of
+        // the harness), not compared with the model
+        op = format!("#{}", op);
+        em.count("mt:unpromised");
+    }
     let class = format!("multi_target:m={}", if tab.is_empty() { "0" } else { "pos" });
     let body = |ctx: &mut Ctx| {
         let members: Vec<Box<dyn PredictInplace<Array2<f64>, Array1<i64>>>> =
             tab.iter().zip(adj.iter()).map(|(t, a)| Box::new(Scripted { tab: t.clone(), extra: -1, adj: *a, zero: 0i64 }) as Box<dyn PredictInplace<Array2<f64>, Array1<i64>>>).collect();
         let model = MultiTargetModel::new(members);
         let x = tag_rows(&tags);
-        let out: Array2<i64> = match &pre {
-            None => model.predict(&x),
+        let (out, rec): (Array2<i64>, &str) = match &pre {
+            None => run_how(&model, &x, How::Form(form)),
             Some(p) => {
                 let ncols = p.first().map(|r| r.len()).unwrap_or(tab.len());
-                let mut y = Array2::from_shape_fn((p.len(), ncols), |(i, j)| p[i][j]);
-                model.predict_inplace(&x, &mut y);
-                y
+                let y = Array2::from_shape_fn((p.len(), ncols), |(i, j)| p[i][j]);
+                run_how(&model, &x, How::Into(y))
             }
         };
         if valid {
+            ctx.require(rec != " rec=changed", "dataset_form_returns_records", &class, || format!("form {} did not hand the records back unchanged", FORMS[form]));
             ctx.require(out.nrows() == tags.len() && out.ncols() == tab.len(), "one_output_per_row", &class, || format!("shape {:?} for n={} m={}", out.shape(), tags.len(), tab.len()));
             if out.nrows() == tags.len() && out.ncols() == tab.len() {
                 for (i, t) in tags.iter().enumerate() {
@@ -83,7 +151,7 @@ fn op_mt(em: &mut Em, tags: Vec<usize>, tab: Vec<Vec<i64>>, adj: Vec<usize>, pre
                 }
             }
         }
-        format!("ok {}", list2(out.rows().into_iter().map(|r| r.to_vec()), |x: i64| x.to_string()))
+        format!("ok {}{}", list2(out.rows().into_iter().map(|r| r.to_vec()), |x: i64| x.to_string()), rec)
     };
     if valid {
         em.case_valid(op, &class, body)
@@ -92,7 +160,7 @@ fn op_mt(em: &mut Em, tags: Vec<usize>, tab: Vec<Vec<i64>>, adj: Vec<usize>, pre
     }
 }
 
-fn op_mc(em: &mut Em, tags: Vec<usize>, labels: Vec<usize>, tab: Vec<Vec<u32>>, adj: Vec<usize>, pre: Option<Vec<usize>>) {
+fn op_mc(em: &mut Em, tags: Vec<usize>, labels: Vec<usize>, tab: Vec<Vec<u32>>, adj: Vec<usize>, pre: Option<Vec<usize>>, form: usize) {
     let mut op = format!(
         "mc tags={} labels={} tab={} adj={}",
         list(tags.iter(), |x| x.to_string()),
@@ -101,11 +169,23 @@ fn op_mc(em: &mut Em, tags: Vec<usize>, labels: Vec<usize>, tab: Vec<Vec<u32>>, 
         list(adj.iter(), |x| x.to_string())
     );
     let pre_ok = pre.as_ref().map(|p| p.len() == tags.len()).unwrap_or(true);
-    if let Some(p) = &pre {
-        op.push_str(&format!(" pre={}", list(p.iter(), |x| x.to_string())));
+    match &pre {
+        Some(p) => op.push_str(&format!(" form=into pre={}", list(p.iter(), |x| x.to_string()))),
+        None => op.push_str(&format!(" form={}", FORMS[form])),
     }
     let valid = adj.iter().all(|a| *a == 0) && !tab.is_empty() && pre_ok;
+    if !valid {
+        // ill-behaved members, no member at all, a buffer of the wrong length: outside the property's guard
+        op = format!("#{}", op);
+        em.count("mc:unpromised");
+    }
     let class = "multi_class".to_string();
+    if valid {
+        // cells written as the set of tied labels (the mask of the tie-break): tallied for the ceiling
+        let tied = tags.iter().filter(|t| { let mx = tab.iter().map(|r| r[**t]).max().unwrap(); tab.iter().filter(|r| r[**t] == mx).count() > 1 }).count();
+        em.count_n("mc:cells", tags.len() as u64);
+        em.count_n("mc:tied_cells", tied as u64);
+    }
     let body = |ctx: &mut Ctx| {
         let members: Vec<(usize, Box<dyn PredictInplace<Array2<f64>, Array1<Pr>>>)> = labels
             .iter()
@@ -117,15 +197,12 @@ fn op_mc(em: &mut Em, tags: Vec<usize>, labels: Vec<usize>, tab: Vec<Vec<u32>>, 
             .collect();
         let model = MultiClassModel::new(members);
         let x = tag_rows(&tags);
-        let out: Array1<usize> = match &pre {
-            None => model.predict(&x),
-            Some(p) => {
-                let mut y = Array1::from(p.clone());
-                model.predict_inplace(&x, &mut y);
-                y
-            }
+        let (out, rec): (Array1<usize>, &str) = match &pre {
+            None => run_how(&model, &x, How::Form(form)),
+            Some(p) => run_how(&model, &x, How::Into(Array1::from(p.clone()))),
         };
         if valid {
+            ctx.require(rec != " rec=changed", "dataset_form_returns_records", &class, || format!("form {} did not hand the records back unchanged", FORMS[form]));
             ctx.require(out.len() == tags.len(), "one_output_per_row", &class, || format!("{} outputs for {} rows", out.len(), tags.len()));
             for (i, t) in tags.iter().enumerate() {
                 if i >= out.len() {
@@ -154,9 +231,9 @@ fn op_mc(em: &mut Em, tags: Vec<usize>, labels: Vec<usize>, tab: Vec<Vec<u32>>, 
                     if w.len() > 1 && w.contains(l) { format!("t{}", w.iter().map(|x| x.to_string()).collect::<Vec<_>>().join("|")) } else { l.to_string() }
                 })
                 .collect();
-            return format!("ok {}", cells.join(","));
+            return format!("ok {}{}", cells.join(","), rec);
         }
-        format!("ok {}", list(out.iter(), |x| x.to_string()))
+        format!("ok {}{}", list(out.iter(), |x| x.to_string()), rec)
     };
     if valid {
         em.case_valid(op, &class, body)
@@ -224,6 +301,54 @@ fn op_platt32(em: &mut Em, a: f32, b: f32, xs: Vec<f32>) {
     }
 }
 
+/// the `Platt` wrapper itself — `Platt::predict_inplace` over a scripted inner model that answers `xs[tag]`
+/// (row `i` carries tag `i`), with chosen `A`, `B` (hook `Platt::verif_from_parts`) — through every calling
+/// form incl. a pre-filled probability buffer; the driver answers with `predictForm plattModel`
+fn op_plattw(em: &mut Em, rng: &mut Rng) {
+    use linfa::composing::platt_scaling::Platt;
+    let a = match rng.below(4) {
+        0 => -(rng.range(1, 40) as f64) / 8.0,
+        1 => rng.range(1, 40) as f64 / 8.0,
+        _ => (rng.unit() - 0.7) * 6.0,
+    };
+    let b = if rng.chance(1, 4) { 0.0 } else { (rng.unit() - 0.5) * 8.0 };
+    let n = rng.below(8);
+    let xs: Vec<f64> = (0..n)
+        .map(|_| match rng.below(5) {
+            0 => 0.0,
+            1 => (rng.unit() - 0.5) * 400.0,
+            _ => (rng.unit() - 0.5) * 20.0,
+        })
+        .collect();
+    let tags: Vec<usize> = (0..n).collect();
+    let x = tag_rows(&tags);
+    let model = Platt::verif_from_parts(a, b, Scripted { tab: xs.clone(), extra: 0.0, adj: 0, zero: 0.0 });
+    let into = rng.chance(1, 3);
+    let form = rng.below(5);
+    let pre: Vec<f32> = (0..n).map(|i| if i % 2 == 0 { 0.75 } else { 0.0625 }).collect();
+    let mut op = format!("plattw a={} b={} xs={}", hex64(a), hex64(b), list(xs.iter(), |x| hex64(*x)));
+    if into {
+        em.count("plattw:inplace_prefilled");
+        op.push_str(&format!(" form=into pre={}", list(pre.iter(), |x| hex64(*x as f64))));
+    } else {
+        op.push_str(&format!(" form={}", FORMS[form]));
+    }
+    let class = "platt_wrapper";
+    em.case_valid(op, class, |ctx| {
+        let (out, rec): (Array1<Pr>, &str) = if into { run_how(&model, &x, How::Into(pre.iter().map(|p| Pr::new(*p)).collect())) } else { run_how(&model, &x, How::Form(form)) };
+        ctx.require(rec != " rec=changed", "dataset_form_returns_records", class, || format!("form {} did not hand the records back unchanged", FORMS[form]));
+        ctx.require(out.len() == n, "one_output_per_row", class, || format!("{} outputs for {} rows", out.len(), n));
+        let fresh: Array1<Pr> = model.predict(&x);
+        ctx.require(out.len() == fresh.len() && out.iter().zip(fresh.iter()).all(|(p, q)| p.to_bits() == q.to_bits()), if into { "inplace_into_supplied_buffer" } else { "forms_agree" }, class, || format!("{:?} vs predict(&records) {:?}", out, fresh));
+        for (i, p) in out.iter().enumerate() {
+            ctx.require(**p >= 0.0 && **p <= 1.0, "probability_in_unit_interval", class, || format!("row {} -> {}", i, **p));
+            let one: Array1<Pr> = model.predict(&tag_rows(&[i]));
+            ctx.require(one.len() == 1 && one[0].to_bits() == p.to_bits(), "batch_eq_rowwise", class, || format!("row {} alone {:?} vs in the batch {}", i, one, **p));
+        }
+        format!("ok {}{}", list(out.iter(), |p| show_pr(*p)), rec)
+    });
+}
+
 pub fn hexrows(a: &Array2<f64>) -> String {
     list2(a.rows().into_iter().map(|r| r.to_vec()), |x: f64| hex64(x))
 }
@@ -277,6 +402,7 @@ pub fn batch_from(rng: &mut Rng, pool: &Array2<f64>, em: &mut Em) -> Array2<f64>
 fn pre_len(rng: &mut Rng, em: &mut Em, n: usize, what: &str) -> usize {
     if rng.chance(1, 10) {
         em.count(&format!("{}:inplace_bad_len", what));
+        em.count(&format!("{}:unpromised", what));
         if n > 0 && rng.coin() { n - 1 } else { n + 1 }
     } else {
         em.count(&format!("{}:inplace_prefilled", what));
@@ -325,9 +451,16 @@ fn op_kmeans(em: &mut Em, rng: &mut Rng) {
         for j in 0..p {
             q[(0, j)] = data[(0, j)];
         }
+        // an unordered query now and then: every distance is NaN, no `<` holds, centroid 0 it is — and the
+        // cell must still be WRITTEN (stale-cell class of the isotonic finding)
+        if rng.chance(1, 4) {
+            q[(5, rng.below(p))] = f64::NAN;
+            em.count("kmeans:nan_row_in_pool");
+        }
         q
     };
     let batch = batch_from(rng, &pool, em);
+    let form = rng.below(5);
     use rand::SeedableRng;
     let model = match KMeans::params_with_rng(k, rand_xoshiro::Xoshiro256Plus::seed_from_u64(seed)).max_n_iterations(20).n_runs(1).tolerance(1e-3).fit(&Dataset::from(data.clone())) {
         Ok(m) => m,
@@ -337,12 +470,26 @@ fn op_kmeans(em: &mut Em, rng: &mut Rng) {
         }
     };
     let cents = model.centroids().clone();
-    let op = format!("kmeans cents={} rows={}", hexrows(&cents), hexrows(&batch));
+    {
+        // tie-set cells (the mask of the tie-break), tallied for the ceiling
+        let tied = batch.rows().into_iter().filter(|r| {
+            let d: Vec<f64> = cents.rows().into_iter().map(|c| c.iter().zip(r.iter()).fold(0.0, |s, (a, b)| s + (a - b) * (a - b))).collect();
+            let dm = d.iter().cloned().fold(f64::INFINITY, f64::min);
+            d.iter().filter(|x| **x == dm).count() > 1
+        }).count();
+        em.count_n("kmeans:cells", batch.nrows() as u64);
+        em.count_n("kmeans:tied_cells", tied as u64);
+    }
+    let op = format!("kmeans cents={} rows={} form={}", hexrows(&cents), hexrows(&batch), FORMS[form]);
     em.case_valid(op, "kmeans", |ctx| {
-        let out: Array1<usize> = model.predict(&batch);
+        let (out, rec): (Array1<usize>, &str) = run_how(&model, &batch, How::Form(form));
+        ctx.require(rec != " rec=changed", "dataset_form_returns_records", "kmeans", || format!("form {} did not hand the records back unchanged", FORMS[form]));
         ctx.require(out.len() == batch.nrows(), "one_output_per_row", "kmeans", || format!("{} outputs for {} rows", out.len(), batch.nrows()));
         // nearest centroid, recomputed naively
         for (i, r) in batch.rows().into_iter().enumerate() {
+            if r.iter().any(|v| v.is_nan()) {
+                continue;
+            }
             let d: Vec<f64> = cents.rows().into_iter().map(|c| c.iter().zip(r.iter()).map(|(a, b)| (a - b) * (a - b)).sum()).collect();
             let dm = d.iter().cloned().fold(f64::INFINITY, f64::min);
             ctx.require(d[out[i]] <= dm + 1e-9 * (1.0 + dm), "nearest_centroid", "kmeans", || format!("row {} assigned to {} at {}, nearest at {}", i, out[i], d[out[i]], dm));
@@ -351,13 +498,13 @@ fn op_kmeans(em: &mut Em, rng: &mut Rng) {
             let r: Array1<usize> = model.predict(&batch.slice(ndarray::s![i..i + 1, ..]).to_owned());
             ctx.require(r.len() == 1 && r[0] == out[i], "batch_eq_rowwise", "kmeans", || format!("row {} alone {:?} vs in the batch {}", i, r, out[i]));
         }
-        format!("ok {}", kmeans_cells(&cents, &batch, &out))
+        format!("ok {}{}", kmeans_cells(&cents, &batch, &out), rec)
     });
     // the in-place form into a pre-filled membership buffer
     let pl = pre_len(rng, em, batch.nrows(), "kmeans");
     let pre: Vec<usize> = (0..pl).map(|i| 70 + i).collect();
     let ok = pl == batch.nrows();
-    let op = format!("kmeans cents={} rows={} pre={}", hexrows(&cents), hexrows(&batch), list(pre.iter(), |x| x.to_string()));
+    let op = format!("{}kmeans cents={} rows={} form=into pre={}", if ok { "" } else { "#" }, hexrows(&cents), hexrows(&batch), list(pre.iter(), |x| x.to_string()));
     let body = |ctx: &mut Ctx| {
         let mut y = Array1::from(pre.clone());
         model.predict_inplace(&batch, &mut y);
@@ -389,7 +536,7 @@ fn op_affine(em: &mut Em, rng: &mut Rng) {
     let batch = batch_from(rng, &pool, em);
     let enet = rng.chance(1, 3);
     let (w, b, kind): (Array1<f64>, f64, &str);
-    let pred: std::rc::Rc<dyn Fn(&Array2<f64>, Option<Array1<f64>>) -> Array1<f64>>;
+    let pred: std::rc::Rc<dyn Fn(&Array2<f64>, How<Array1<f64>>) -> (Array1<f64>, &'static str)>;
     if enet {
         let m = match linfa_elasticnet::ElasticNet::params().penalty(0.125).l1_ratio(0.5).fit(&ds) {
             Ok(m) => m,
@@ -401,13 +548,7 @@ fn op_affine(em: &mut Em, rng: &mut Rng) {
         w = m.hyperplane().clone();
         b = m.intercept();
         kind = "enet";
-        pred = std::rc::Rc::new(move |q, pre| match pre {
-            None => m.predict(q),
-            Some(mut y) => {
-                m.predict_inplace(q, &mut y);
-                y
-            }
-        });
+        pred = std::rc::Rc::new(move |q, how| run_how(&m, q, how));
     } else {
         let m = match linfa_linear::LinearRegression::new().with_intercept(rng.coin()).fit(&ds) {
             Ok(m) => m,
@@ -419,31 +560,27 @@ fn op_affine(em: &mut Em, rng: &mut Rng) {
         w = m.params().clone();
         b = m.intercept();
         kind = "ols";
-        pred = std::rc::Rc::new(move |q, pre| match pre {
-            None => m.predict(q),
-            Some(mut y) => {
-                m.predict_inplace(q, &mut y);
-                y
-            }
-        });
+        pred = std::rc::Rc::new(move |q, how| run_how(&m, q, how));
     }
     em.count(&format!("affine:{}", kind));
-    let op = format!("affine kind={} w={} b={} rows={}", kind, list(w.iter(), |x| hex64(*x)), hex64(b), hexrows(&batch));
+    let form = rng.below(5);
+    let op = format!("affine kind={} w={} b={} rows={} form={}", kind, list(w.iter(), |x| hex64(*x)), hex64(b), hexrows(&batch), FORMS[form]);
     em.case_valid(op, &format!("affine:{}", kind), |ctx| {
-        let out = pred(&batch, None);
+        let (out, rec) = pred(&batch, How::Form(form));
+        ctx.require(rec != " rec=changed", "dataset_form_returns_records", kind, || format!("form {} did not hand the records back unchanged", FORMS[form]));
         ctx.require(out.len() == batch.nrows(), "one_output_per_row", kind, || format!("{} outputs for {} rows", out.len(), batch.nrows()));
         let rows: Vec<Vec<f64>> = out.iter().map(|x| vec![*x]).collect();
-        rowwise_f(ctx, kind, &batch, &rows, &|q| pred(q, None).iter().map(|x| vec![*x]).collect());
-        format!("ok {}", list(out.iter(), |x| show_t(*x)))
+        rowwise_f(ctx, kind, &batch, &rows, &|q| pred(q, How::Form(0)).0.iter().map(|x| vec![*x]).collect());
+        format!("ok {}{}", list(out.iter(), |x| show_t(*x)), rec)
     });
     let pl = pre_len(rng, em, batch.nrows(), "affine");
     let pre: Vec<f64> = (0..pl).map(|i| -7.25 - 1.5 * i as f64).collect();
     let ok = pl == batch.nrows();
-    let op = format!("affine kind={} w={} b={} rows={} pre={}", kind, list(w.iter(), |x| hex64(*x)), hex64(b), hexrows(&batch), list(pre.iter(), |x| hex64(*x)));
+    let op = format!("{}affine kind={} w={} b={} rows={} form=into pre={}", if ok { "" } else { "#" }, kind, list(w.iter(), |x| hex64(*x)), hex64(b), hexrows(&batch), list(pre.iter(), |x| hex64(*x)));
     let body = |ctx: &mut Ctx| {
-        let y = pred(&batch, Some(Array1::from(pre.clone())));
+        let y = pred(&batch, How::Into(Array1::from(pre.clone()))).0;
         if ok {
-            let fresh = pred(&batch, None);
+            let fresh = pred(&batch, How::Form(0)).0;
             ctx.require(y.len() == fresh.len() && y.iter().zip(fresh.iter()).all(|(a, b)| a.to_bits() == b.to_bits()), "inplace_into_supplied_buffer", kind, || format!("pre-filled buffer gives {:?}, a fresh one {:?}", y, fresh));
         }
         format!("ok {}", list(y.iter(), |x| show_t(*x)))
@@ -457,17 +594,17 @@ fn op_affine(em: &mut Em, rng: &mut Rng) {
 
 /// the in-place case of a `linmap` op: `predict_inplace` into a pre-filled `(n, q)` buffer (now and then of
 /// the wrong shape)
-fn linmap_inplace(em: &mut Em, rng: &mut Rng, kind: &str, head: &str, batch: &Array2<f64>, q: usize, run: &dyn Fn(&Array2<f64>, Option<Array2<f64>>) -> Array2<f64>) {
+fn linmap_inplace(em: &mut Em, rng: &mut Rng, kind: &str, head: &str, batch: &Array2<f64>, q: usize, run: &dyn Fn(&Array2<f64>, How<Array2<f64>>) -> (Array2<f64>, &'static str)) {
     let n = batch.nrows();
     let bad = rng.chance(1, 10);
     let (pn, pq) = if !bad { (n, q) } else if n > 0 && rng.coin() { (n, q + 1) } else { (n + 1, q) };
     em.count(&format!("linmap:{}", if bad { "inplace_bad_shape" } else { "inplace_prefilled" }));
     let pre = Array2::from_shape_fn((pn, pq), |(i, j)| -7.25 - 1.5 * i as f64 + 0.5 * j as f64);
-    let op = format!("{} pre={}", head, hexrows(&pre));
+    let op = format!("{}{} form=into pre={}", if bad { "#" } else { "" }, head, hexrows(&pre));
     let body = |ctx: &mut Ctx| {
-        let y = run(batch, Some(pre.clone()));
+        let y = run(batch, How::Into(pre.clone())).0;
         if !bad {
-            let fresh = run(batch, None);
+            let fresh = run(batch, How::Form(0)).0;
             ctx.require(y.dim() == fresh.dim() && y.iter().zip(fresh.iter()).all(|(a, b)| a.to_bits() == b.to_bits()), "inplace_into_supplied_buffer", kind, || format!("pre-filled buffer gives {:?}, a fresh one {:?}", y, fresh));
         }
         format!("ok {}", list2(y.rows().into_iter().map(|r| r.to_vec()), |x: f64| show_t(x)))
@@ -506,21 +643,15 @@ fn op_linmap(em: &mut Em, rng: &mut Rng) {
             list(0..comps.nrows(), |_| hex64(0.0)),
             hexrows(&batch)
         );
-        let run = |q: &Array2<f64>, pre: Option<Array2<f64>>| -> Array2<f64> {
-            match pre {
-                None => m.predict(q),
-                Some(mut y) => {
-                    m.predict_inplace(q, &mut y);
-                    y
-                }
-            }
-        };
-        em.case_valid(op.clone(), "linmap:pca", |ctx| {
-            let out: Array2<f64> = run(&batch, None);
+        let run = |q: &Array2<f64>, how: How<Array2<f64>>| -> (Array2<f64>, &'static str) { run_how(&m, q, how) };
+        let form = rng.below(5);
+        em.case_valid(format!("{} form={}", op, FORMS[form]), "linmap:pca", |ctx| {
+            let (out, rec): (Array2<f64>, &str) = run(&batch, How::Form(form));
+            ctx.require(rec != " rec=changed", "dataset_form_returns_records", "pca", || format!("form {} did not hand the records back unchanged", FORMS[form]));
             ctx.require(out.nrows() == batch.nrows(), "one_output_per_row", "pca", || format!("{} outputs for {} rows", out.nrows(), batch.nrows()));
             let rows: Vec<Vec<f64>> = out.rows().into_iter().map(|r| r.to_vec()).collect();
-            rowwise_f(ctx, "pca", &batch, &rows, &|q| run(q, None).rows().into_iter().map(|r| r.to_vec()).collect());
-            format!("ok {}", list2(out.rows().into_iter().map(|r| r.to_vec()), |x: f64| show_t(x)))
+            rowwise_f(ctx, "pca", &batch, &rows, &|q| run(q, How::Form(0)).0.rows().into_iter().map(|r| r.to_vec()).collect());
+            format!("ok {}{}", list2(out.rows().into_iter().map(|r| r.to_vec()), |x: f64| show_t(x)), rec)
         });
         linmap_inplace(em, rng, "pca", &op, &batch, comps.nrows(), &run);
     } else {
@@ -554,21 +685,15 @@ fn op_linmap(em: &mut Em, rng: &mut Rng) {
             list(ymean.iter(), |x| hex64(*x)),
             hexrows(&batch)
         );
-        let run = |q: &Array2<f64>, pre: Option<Array2<f64>>| -> Array2<f64> {
-            match pre {
-                None => m.predict(q),
-                Some(mut y) => {
-                    m.predict_inplace(q, &mut y);
-                    y
-                }
-            }
-        };
-        em.case_valid(op.clone(), "linmap:pls", |ctx| {
-            let out: Array2<f64> = run(&batch, None);
+        let run = |q: &Array2<f64>, how: How<Array2<f64>>| -> (Array2<f64>, &'static str) { run_how(&m, q, how) };
+        let form = rng.below(5);
+        em.case_valid(format!("{} form={}", op, FORMS[form]), "linmap:pls", |ctx| {
+            let (out, rec): (Array2<f64>, &str) = run(&batch, How::Form(form));
+            ctx.require(rec != " rec=changed", "dataset_form_returns_records", "pls", || format!("form {} did not hand the records back unchanged", FORMS[form]));
             ctx.require(out.nrows() == batch.nrows(), "one_output_per_row", "pls", || format!("{} outputs for {} rows", out.nrows(), batch.nrows()));
             let rows: Vec<Vec<f64>> = out.rows().into_iter().map(|r| r.to_vec()).collect();
-            rowwise_f(ctx, "pls", &batch, &rows, &|q| run(q, None).rows().into_iter().map(|r| r.to_vec()).collect());
-            format!("ok {}", list2(out.rows().into_iter().map(|r| r.to_vec()), |x: f64| show_t(x)))
+            rowwise_f(ctx, "pls", &batch, &rows, &|q| run(q, How::Form(0)).0.rows().into_iter().map(|r| r.to_vec()).collect());
+            format!("ok {}{}", list2(out.rows().into_iter().map(|r| r.to_vec()), |x: f64| show_t(x)), rec)
         });
         linmap_inplace(em, rng, "pls", &op, &batch, t, &run);
     }
@@ -601,26 +726,34 @@ fn op_tree(em: &mut Em, rng: &mut Rng) {
             return;
         }
     };
-    // queries on the thresholds (x == split value goes right) and around them
-    let pool = lattice(rng, 8, p, 9, true);
+    // queries on the thresholds (x == split value goes LEFT, `<=`, as fitting routes it) and around them
+    let mut pool = lattice(rng, 8, p, 9, true);
+    // an unordered query now and then: `NaN <= split` is false, the row goes right at every split on that
+    // feature — and its cell must still be WRITTEN (stale-cell class of the isotonic finding)
+    if rng.chance(1, 4) {
+        pool[(7, rng.below(p))] = f64::NAN;
+        em.count("tree:nan_row_in_pool");
+    }
     let batch = batch_from(rng, &pool, em);
+    let form = rng.below(5);
     let mut toks = vec![];
     tree_tokens(m.root_node(), &mut toks);
     em.count(&format!("tree:nodes={}", if toks.len() == 1 { "1" } else if toks.len() <= 7 { "3-7" } else { "9+" }));
-    let op = format!("tree t={} rows={}", toks.join(","), hexrows(&batch));
+    let op = format!("tree t={} rows={} form={}", toks.join(","), hexrows(&batch), FORMS[form]);
     em.case_valid(op, "tree", |ctx| {
-        let out: Array1<usize> = m.predict(&batch);
+        let (out, rec): (Array1<usize>, &str) = run_how(&m, &batch, How::Form(form));
+        ctx.require(rec != " rec=changed", "dataset_form_returns_records", "tree", || format!("form {} did not hand the records back unchanged", FORMS[form]));
         ctx.require(out.len() == batch.nrows(), "one_output_per_row", "tree", || format!("{} outputs for {} rows", out.len(), batch.nrows()));
         for i in 0..batch.nrows().min(out.len()) {
             let r: Array1<usize> = m.predict(&batch.slice(ndarray::s![i..i + 1, ..]).to_owned());
             ctx.require(r.len() == 1 && r[0] == out[i], "batch_eq_rowwise", "tree", || format!("row {} alone {:?} vs in the batch {}", i, r, out[i]));
         }
-        format!("ok {}", list(out.iter(), |x| x.to_string()))
+        format!("ok {}{}", list(out.iter(), |x| x.to_string()), rec)
     });
     let pl = pre_len(rng, em, batch.nrows(), "tree");
     let pre: Vec<usize> = (0..pl).map(|i| 70 + i).collect();
     let ok = pl == batch.nrows();
-    let op = format!("tree t={} rows={} pre={}", toks.join(","), hexrows(&batch), list(pre.iter(), |x| x.to_string()));
+    let op = format!("{}tree t={} rows={} form=into pre={}", if ok { "" } else { "#" }, toks.join(","), hexrows(&batch), list(pre.iter(), |x| x.to_string()));
     let body = |ctx: &mut Ctx| {
         let mut y = Array1::from(pre.clone());
         m.predict_inplace(&batch, &mut y);
@@ -671,20 +804,22 @@ fn op_iso(em: &mut Em, rng: &mut Rng) {
         };
     }
     let batch = batch_from(rng, &pool, em);
-    let op = format!("iso reg={} resp={} rows={}", list(reg.iter(), |x| hex64(*x)), list(resp.iter(), |x| hex64(*x)), hexrows(&batch));
+    let form = rng.below(5);
+    let op = format!("iso reg={} resp={} rows={} form={}", list(reg.iter(), |x| hex64(*x)), list(resp.iter(), |x| hex64(*x)), hexrows(&batch), FORMS[form]);
     em.case_valid(op, "iso", |ctx| {
-        let out: Array1<f64> = m.predict(&batch);
+        let (out, rec): (Array1<f64>, &str) = run_how(&m, &batch, How::Form(form));
+        ctx.require(rec != " rec=changed", "dataset_form_returns_records", "iso", || format!("form {} did not hand the records back unchanged", FORMS[form]));
         ctx.require(out.len() == batch.nrows(), "one_output_per_row", "iso", || format!("{} outputs for {} rows", out.len(), batch.nrows()));
         for i in 0..batch.nrows().min(out.len()) {
             let r: Array1<f64> = m.predict(&batch.slice(ndarray::s![i..i + 1, ..]).to_owned());
             ctx.require(r.len() == 1 && r[0].to_bits() == out[i].to_bits(), "batch_eq_rowwise", "iso", || format!("row {} alone {:?} vs in the batch {}", i, r, out[i]));
         }
-        format!("ok {}", list(out.iter(), |x| hex64c(*x)))
+        format!("ok {}{}", list(out.iter(), |x| show_t(*x)), rec)
     });
     let pl = pre_len(rng, em, batch.nrows(), "iso");
     let pre: Vec<f64> = (0..pl).map(|i| -7.25 - 1.5 * i as f64).collect();
     let ok = pl == batch.nrows();
-    let op = format!("iso reg={} resp={} rows={} pre={}", list(reg.iter(), |x| hex64(*x)), list(resp.iter(), |x| hex64(*x)), hexrows(&batch), list(pre.iter(), |x| hex64(*x)));
+    let op = format!("{}iso reg={} resp={} rows={} form=into pre={}", if ok { "" } else { "#" }, list(reg.iter(), |x| hex64(*x)), list(resp.iter(), |x| hex64(*x)), hexrows(&batch), list(pre.iter(), |x| hex64(*x)));
     let body = |ctx: &mut Ctx| {
         let mut y = Array1::from(pre.clone());
         m.predict_inplace(&batch, &mut y);
@@ -692,7 +827,7 @@ fn op_iso(em: &mut Em, rng: &mut Rng) {
             let fresh: Array1<f64> = m.predict(&batch);
             ctx.require(y.len() == fresh.len() && y.iter().zip(fresh.iter()).all(|(a, b)| a.to_bits() == b.to_bits()), "inplace_into_supplied_buffer", "iso", || format!("pre-filled buffer gives {:?}, a fresh one {:?}", y, fresh));
         }
-        format!("ok {}", list(y.iter(), |x| hex64c(*x)))
+        format!("ok {}", list(y.iter(), |x| show_t(*x)))
     };
     if ok {
         em.case_valid(op, "iso:inplace", body)
@@ -729,7 +864,8 @@ fn gen_wrappers(em: &mut Em, rng: &mut Rng) {
         } else {
             None
         };
-        op_mt(em, tags, tab, adj, pre);
+        let form = rng.below(5);
+        op_mt(em, tags, tab, adj, pre, form);
     } else {
         // few distinct probabilities so that ties between members are frequent
         let levels = [0u32, 16, 32, 32, 48, 64];
@@ -761,7 +897,8 @@ fn gen_wrappers(em: &mut Em, rng: &mut Rng) {
         } else {
             None
         };
-        op_mc(em, tags, labels, tab, adj, pre);
+        let form = rng.below(5);
+        op_mc(em, tags, labels, tab, adj, pre, form);
     }
 }
 
@@ -798,8 +935,8 @@ pub fn run(em: &mut Em, rng: &mut Rng) {
         for m in 0..=4usize {
             let tags: Vec<usize> = (0..n).map(|i| (i * 2 + 1) % n.max(1)).collect();
             let tab: Vec<Vec<i64>> = (0..m).map(|j| (0..n.max(1)).map(|t| (100 * (j + 1) + t) as i64).collect()).collect();
-            op_mt(em, tags.clone(), tab.clone(), vec![0; m], None);
-            op_mt(em, tags, tab, vec![0; m], Some((0..n).map(|i| (0..m).map(|j| -7 - (3 * i + j) as i64).collect()).collect()));
+            op_mt(em, tags.clone(), tab.clone(), vec![0; m], None, (n + m) % 5);
+            op_mt(em, tags, tab, vec![0; m], Some((0..n).map(|i| (0..m).map(|j| -7 - (3 * i + j) as i64).collect()).collect()), 0);
         }
     }
     for _ in 0..400 * scale {
@@ -807,6 +944,9 @@ pub fn run(em: &mut Em, rng: &mut Rng) {
     }
     for _ in 0..300 * scale {
         gen_platt(em, rng);
+    }
+    for _ in 0..150 * scale {
+        op_plattw(em, rng);
     }
     // the boundary values of the sigmoid
     op_platt(em, 1.0, 0.0, vec![0.0, -0.0, 1e-30, -1e-30, 88.0, 89.0, 104.0, -104.0, 1e30, -1e30, 3.5e38, -3.5e38]);
